@@ -80,4 +80,17 @@ def clampGroupFirst (m : α) (lims : List α) : α :=
   | [] => m
   | l :: _ => if lims.any (fun x => decide (x < m)) then l else m
 
+/-- `_setup_input_orifice`: the distributed flows are written into the assignment of the orificed sweep by ASSEMBLY ID
+(`ByPosition[asm_id[i]] := flowrate m_asm[i]`); a position is `none` (empty, or not written yet) or carries a flow -/
+def writeFlows (pos : List (Option α)) : List (Nat × α) → List (Option α)
+  | [] => pos
+  | (i, m) :: t => writeFlows (pos.set i (some m)) t
+
+/-- the variant of a seeded change: the flows are paired with the assigned (non-empty) positions in order -/
+def writeFlowsByOrder : List (Option α) → List α → List (Option α)
+  | [], _ => []
+  | none :: ps, ms => none :: writeFlowsByOrder ps ms
+  | some x :: ps, [] => some x :: writeFlowsByOrder ps []
+  | some _ :: ps, m :: ms => some m :: writeFlowsByOrder ps ms
+
 end Dassh.Model.Orifice
